@@ -136,7 +136,8 @@ def run_case(case, tier):
             classes.append("multi-conformation")
         grid = random_grid(rng)
     window = random_window(rng, grid)
-    opts = ["-g"] + [repr(v) for v in grid] + ["-w"] + [repr(v) for v in window]
+    opts = ["-g"] + [repr(v) for v in grid] + ["-w"] + [repr(v) for v in window] + util.neutral_options(
+        rng, families=("display", "protonation", "keep", "swap-display"), classes=classes)
     text = pdbio.dump(recs)
     run = obs.run_single(text, opts, keep_mol=True)
     counts["pipeline_runs"] = 1
